@@ -44,6 +44,7 @@ def _trace_functions(repo):
 def _worker(conn, harness_name, cfg, tier, repo, seed):
     try:
         os.environ["PYMOTO_VERIF"] = "1"
+        sys.stdout = open(os.devnull, "w")      # pyMOTO prints (timing, finite_difference reports); results travel by pipe
         seen = _trace_functions(repo)
         try:
             from harness.refs_merge import prime_inspect_cache
